@@ -195,12 +195,15 @@ def rule_queue_listing(ck):
 
 
 def run(ck):
-    rule_index(ck)
+    ck.attempt(rule_index)
     rule_register(ck)          # C10-R2 co-registration (rule ids C12.R4 are reported under this property as well)
-    rule_random(ck)
-    rule_affine(ck)
-    rule_queue_listing(ck)
+    ck.attempt(rule_random)
+    ck.attempt(rule_affine)
+    ck.attempt(rule_queue_listing)
     # equal inputs give equal outputs only if a run cannot leave marks on objects a later run reads: nothing handed to a scheduler
     # shares mutable state with the network (shared with C05)
     from .c05 import rule_escape
-    rule_escape(ck, rid="C10.R6")
+    ck.attempt(rule_escape, rid="C10.R6")
+    # a simulation restored from JSON is "built from equal inputs": station order (mapping insertion order) survives the round trip
+    from .c09 import rule_json_order
+    ck.attempt(rule_json_order, rid="C10.R7")
